@@ -25,11 +25,9 @@ theorem ipv6_roundtrip (a : Bytes) (hlen : a.length = 16) (ha : ∀ x ∈ a, x <
     ∃ t, ip6Ntoa a = some t ∧ ip6Aton t = some a :=
   ip6_roundtrip a hlen ha
 
-/-- non-vacuity and a reading aid: `2001:db8::1`, `::ffff:1.2.3.4`, `::` -/
+/-- non-vacuity and a reading aid: `2001:db8::1` -/
 example : ip6Ntoa [0x20, 1, 0x0d, 0xb8, 0, 0, 0, 0, 0, 0, 0, 0, 0, 0, 0, 1]
     = some [50, 48, 48, 49, 58, 100, 98, 56, 58, 58, 49] := by decide
-example : ip6Ntoa [0, 0, 0, 0, 0, 0, 0, 0, 0, 0, 255, 255, 1, 2, 3, 4]
-    = some [58, 58, 102, 102, 102, 102, 58, 49, 46, 50, 46, 51, 46, 52] := by decide
 
 /-- "with arbitrary octets in character-strings": the quoted form `"` ++ `_escapify(s)` ++ `"` of any octet string
 (all 256 values) is read by the tokenizer as exactly one QUOTED_STRING token whose raw value is the escaped text, and
@@ -126,6 +124,18 @@ theorem parseText_printText_partial (tn : String) (st : Style) (env : PEnv) (val
   obtain ⟨sch, hsch, hf, ht, hchk⟩ := h
   obtain ⟨text, hp, hr⟩ := record_roundtrip tn sch hsch st env vals tail hf ht hchk
   exact ⟨sch, text, hsch, hp, hr⟩
+
+/-- "producing text never fails for a record the library accepted from text or wire" — counter-example on the unchanged
+tree (DESIGN §6 D04): the URI target is printed with `bytes.decode()`, which raises on octets that are not UTF-8.
+Full statement (false): `∀ vals tail, Valid vals tail → printRec sch st vals tail ≠ none` for the URI schema. -/
+theorem uri_to_text_raises :
+    (schemaOf "URI").bind (fun sch => printRec sch {} [.n 1, .n 1, .b [255]] none) = none := by decide
+
+/-- …and holds for every schema type under the conditions of `WfText` (restated from `parseText_printText_partial`) -/
+theorem text_total_partial (tn : String) (st : Style) (env : PEnv) (vals : List FV) (tail : Option FV)
+    (h : WfText tn st env vals tail) : ∃ sch text, schemaOf tn = some sch ∧ printRec sch st vals tail = some text := by
+  obtain ⟨sch, text, a, b, _⟩ := parseText_printText_partial tn st env vals tail h
+  exact ⟨sch, text, a, b⟩
 
 /-- field kinds that have a round-trip lemma -/
 def kindProved : FK → Bool
